@@ -97,8 +97,8 @@ def run(run):
         light = {(1, 1): None, (1, 2): None, (2, 1): None, (2, 2): None, (3, 1): None, (3, 2): None, (3, 3): 300, (4, 1): None, (4, 2): 200}
         nh = 60
     else:
-        light = {(1, 1): None, (1, 2): None, (2, 1): None, (2, 2): None, (3, 1): None, (3, 2): 200, (3, 3): 40, (4, 2): 20}
-        nh = 16
+        light = {(1, 1): None, (1, 2): None, (2, 1): None, (2, 2): None, (3, 1): None, (3, 2): None, (3, 3): 120, (4, 1): None, (4, 2): 60}
+        nh = 30
     run.assumptions = ["dataset shapes enumerated, scheme symbolic on every path", "float64 modelled as exact reals",
                        "'unifying scheme' = positive multiple of [[0,1,1,0,1,1],[1,1,0,1,1,0]] on both vectors"]
     run.outside = ["n > 4, m > 3"]
